@@ -418,9 +418,9 @@ func onlyHarmless(labels []string) bool {
 func runPredecodeStream(c *Ctx, n int) {
 	w := getWorld()
 	cs := c.NewSet("pre", "Base Time Xml Ns Types Profile Decode Response",
-		"node", "fun root => res_val base_response_val (other (unmarshal_base_response root))")
+		"node", "fun root => res_val base_response_val (other (unmarshal_base_response_direct root))")
 	csL := c.NewSet("prel", "Base Time Xml Ns Types Profile Decode Response",
-		"node", "fun root => res_val logout_response_val (other (unmarshal_logout_response root))")
+		"node", "fun root => res_val logout_response_val (other (unmarshal_logout_response_direct root))")
 	cs.PerShard, csL.PerShard = 60, 60
 	// the same observables from the BYTES: the pre-decoder as token_view (XmlTok.v) + schema interpreter, no tree from the harness
 	csB := c.NewSet("prebytes", "Base Time Xml Ns Types Profile Decode Response XmlTok P_XmlTokC20",
@@ -441,6 +441,7 @@ func runPredecodeStream(c *Ctx, n int) {
 		var raw []byte
 		var labels []string
 		var rs *ResponseSpec
+		crRef := false // a U+000D inside a root attribute value, presented as a character reference (round-6 shape, finding F13)
 		if isLogout {
 			rs = &ResponseSpec{ID: fmt.Sprintf("_l%d", r.Intn(1000000)), InResponseTo: "_q1", Version: "2.0", Issuer: sp2(idpIss), StatusCode: sp2(statusOK),
 				Style: styles[r.Intn(len(styles))], Kind: "LogoutResponse", Destination: pick(r, sloURL, ""), XMLDecl: r.Intn(3) == 0}
@@ -452,6 +453,10 @@ func runPredecodeStream(c *Ctx, n int) {
 				rs.Issuer = sp2("\n    " + idpIss + "\n  ")
 				sp.IdentityProviderIssuer = ""
 				labels = append(labels, "issuer-text-padded")
+			}
+			crRef = r.Intn(10) == 0
+			if crRef {
+				crInto(rs, r.Intn(2) == 0)
 			}
 			root := buildMessage(rs)
 			doc := etree.NewDocument()
@@ -465,6 +470,7 @@ func runPredecodeStream(c *Ctx, n int) {
 				rs.SignedBy = o
 				labels = append(labels, "signed")
 			}
+			doc.WriteSettings.CanonicalAttrVal = crRef // U+000D in an attribute value as &#xD; (etree's default writes it raw: F8)
 			raw, _ = doc.WriteToBytes()
 			labels = append(labels, "kind=LogoutResponse")
 		} else {
@@ -483,12 +489,41 @@ func runPredecodeStream(c *Ctx, n int) {
 				labels = append(labels, "issuer-text-padded")
 			}
 			placement := 1 + r.Intn(3)
+			crRef = r.Intn(10) == 0
+			if crRef {
+				// the ID only where the root is unsigned: a root signature references the ID, whose URI form goxmldsig compares literally
+				crInto(rs, placement == 2 && r.Intn(2) == 0)
+				rs.Pretty = false
+			}
 			doc := g.buildSigned(rs, placement, w.IdP1, nil)
+			doc.WriteSettings.CanonicalAttrVal = crRef
 			raw, _ = doc.WriteToBytes()
 			labels = append(labels, fmt.Sprintf("kind=Response,placement=%d", placement))
 		}
 		// attacker-shaped roots: duplicated / prefixed / xmlns-shadowed attributes, extra Issuer elements, leading whitespace / comments
 		s := string(raw)
+		if crRef {
+			if !strings.Contains(s, "&#xD;") {
+				crRef = false
+			} else {
+				if r.Intn(2) == 0 {
+					s = strings.Replace(s, "&#xD;", "&#13;", -1) // the same character, decimal reference (no effect on any signature)
+				}
+				labels = append(labels, "cr-char-reference-in-root-attribute")
+			}
+		}
+		// an XML declaration naming another encoding than UTF-8 on the genuine (UTF-8) bytes: etree passes the bytes through, and
+		// so must the pre-decoders (F14: xml.Unmarshal, having no CharsetReader, refused every label but utf-8)
+		if r.Intn(4) == 0 {
+			label := pick(r, "ISO-8859-1", "US-ASCII", "utf8", "UTF-16", "windows-1252", "iso-8859-1")
+			q := pick(r, `"`, `'`)
+			if strings.HasPrefix(s, `<?xml version="1.0" encoding="UTF-8"?>`) {
+				s = `<?xml version=` + q + `1.0` + q + ` encoding=` + q + label + q + `?>` + strings.TrimPrefix(s, `<?xml version="1.0" encoding="UTF-8"?>`)
+			} else {
+				s = `<?xml version=` + q + `1.0` + q + ` encoding=` + q + label + q + `?>` + pick(r, "", "\n") + s
+			}
+			labels = append(labels, "declared-encoding="+label)
+		}
 		shape := r.Intn(14)
 		if shape == 13 && oversize >= c.N(3, 12) {
 			shape = 4
@@ -653,6 +688,11 @@ func runPredecodeStream(c *Ctx, n int) {
 				c.Violate("spec", "predecode:fails-on-accepted", "full validation accepts but the unverified decoder fails: "+preErr.Error(), replay)
 			} else if preID != vID || preIRT != vIRT || preDest != vDest || preVer != vVer || preIss != vIss {
 				key := "predecode:disagrees"
+				crn := func(x string) string { return strings.Replace(strings.Replace(x, "\r\n", "\n", -1), "\r", "\n", -1) }
+				if crRef && crn(preID) == vID && crn(preIRT) == vIRT && crn(preDest) == vDest && crn(preVer) == vVer && crn(preIss) == vIss {
+					// the two results differ ONLY by U+000D (pre-decode) vs U+000A (validation) in a value that carried the reference
+					key = "predecode:disagrees:cr-char-reference" // known finding F13
+				}
 				if shape == 3 {
 					key = "predecode:disagrees:dup-prefixed-dup" // known finding F9 region
 				}
@@ -688,6 +728,16 @@ func runPredecodeStream(c *Ctx, n int) {
 		} else {
 			cs.Add(nodeTerm(d.Root()), obs, strings.Join(labels, ","))
 		}
+	}
+}
+
+
+// crInto puts a U+000D into a root attribute value of the message the IdP is about to build (and sign): InResponseTo, or the ID.
+func crInto(rs *ResponseSpec, id bool) {
+	if id {
+		rs.ID = rs.ID + "\r"
+	} else {
+		rs.InResponseTo = "_q\rx"
 	}
 }
 
